@@ -430,6 +430,43 @@ func famC09(g *Gen, o *Out, n int, thorough bool) {
 				o.Count("input/inner-version")
 			}
 		}
+		// a payload window announced SHORTER than the inner header it starts with (DataSize forged to a few bytes,
+		// to just below / at / above the header length, and 64 and more below it): arithmetic on
+		// "DataSize - header length" goes negative. Also on an archive with three roots (a header of 140 bytes).
+		{
+			v2s := [][]byte{}
+			if ver == 2 && len(arch) > 60 {
+				v2s = append(v2s, arch)
+			}
+			if c == 0 && len(bs) > 0 {
+				r3 := []cid.Cid{bs[0].C, bs[len(bs)-1].C, bs[0].C}
+				v2s = append(v2s, writeAll(r3, bs, false))
+			}
+			for _, a := range v2s {
+				base := int(leU64(a[27:35]))
+				if base >= len(a) || a[base] >= 0x80 {
+					continue
+				}
+				hl := uint64(a[base]) + 1
+				for _, v := range []uint64{1, 7, 36, hl - 1, hl, hl + 1} {
+					m := append([]byte{}, a...)
+					for k := 0; k < 8; k++ {
+						m[35+k] = byte(v >> (8 * k))
+					}
+					inputs = append(inputs, m)
+				}
+				if hl > 70 {
+					for _, v := range []uint64{hl - 64, hl - 65, hl - 70} {
+						m := append([]byte{}, a...)
+						for k := 0; k < 8; k++ {
+							m[35+k] = byte(v >> (8 * k))
+						}
+						inputs = append(inputs, m)
+					}
+				}
+				o.Count("input/short-datasize")
+			}
+		}
 		if idxFile != nil { // the same archive with one structural field of its embedded index overwritten
 			for i := 0; i < 3; i++ {
 				io_ := int(leU64(arch[43:51]))
